@@ -298,4 +298,5 @@ def outrank_task_conduct_ranking(args: Any) -> None:
         f'Finished with ranking! Result stored as: {args.output_folder}/pairwise_ranks.tsv. Cleaning up tmp files ..',
     )
 
-    os.remove('ranking_checkpoint_tmp.tsv')
+    if os.path.exists('ranking_checkpoint_tmp.tsv'):
+        os.remove('ranking_checkpoint_tmp.tsv')
